@@ -771,3 +771,66 @@ func (i *n2icpt) UnbindLocalStream(_ *interceptor.StreamInfo) {
 	i.s.BadN2enc = nil
 	i.s.mu.Unlock()
 }
+
+// ---- Z1: what was read under a lock is not acted on under a later hold of the same lock ----------------------------------
+
+type z1hist struct {
+	mu   sync.RWMutex
+	next uint64
+	top  uint64
+	pk   map[uint64]int
+}
+
+func (h *z1hist) GoodZ1report() []int {
+	h.mu.Lock()
+	defer h.mu.Unlock()
+	var out []int
+	for i := h.next; i <= h.top; i++ {
+		out = append(out, h.pk[i])
+		delete(h.pk, i)
+	}
+	h.next = h.top + 1
+	return out
+}
+
+func (h *z1hist) BadZ1report() []int {
+	h.mu.RLock()
+	first, last := h.next, h.top
+	var out []int
+	for i := first; i <= last; i++ {
+		out = append(out, h.pk[i])
+	}
+	h.mu.RUnlock()
+	h.mu.Lock()
+	for i := first; i <= last; i++ {
+		delete(h.pk, i)
+	}
+	h.next = last + 1
+	h.mu.Unlock()
+	return out
+}
+
+func (h *z1hist) GoodZ1twice(v int) {
+	h.mu.Lock()
+	h.pk[1] = v
+	h.mu.Unlock()
+	h.mu.Lock()
+	h.pk[2] = v
+	h.mu.Unlock()
+}
+
+// ---- W3: a guard on an unsigned number does not ask whether it is negative -------------------------------------------------
+
+func GoodW3step(last int64, delta int64) int64 {
+	if last+delta-65536 >= 0 {
+		return last + delta - 65536
+	}
+	return last + delta
+}
+
+func BadW3step(last uint64, delta uint64) uint64 {
+	if last+delta-65536 >= 0 {
+		return last + delta - 65536
+	}
+	return last + delta
+}
